@@ -39,6 +39,29 @@ def single_lines(tier):
     return out
 
 
+def device_lines(devs, tier):
+    """every device row x every mnemonic x too few / wrongly typed operands: the device gate of pass 2 looks at the operands
+    before the encoder has checked how many there are"""
+    from . import encgen
+    ops = ["r1", "r20", "X+", "Z+1", "1", "foo"]
+    out, seen = [], set()
+    for name, _, _, _, _, opts in devs[1:]:
+        rep = frozenset(opts) not in seen
+        seen.add(frozenset(opts))
+        for m in encgen.ALL:
+            out.append(".device %s\n %s" % (name, m))
+            for a in ops:
+                out.append(".device %s\n %s %s" % (name, m, a))
+            if rep or tier != "quick":
+                for a in ops:
+                    for b in ops:
+                        out.append(".device %s\n %s %s, %s" % (name, m, a, b))
+            if rep and tier != "quick":
+                for a in ops[:4]:
+                    out.append(".device %s\n %s %s, %s, %s" % (name, m, a, a, a))
+    return out
+
+
 CYCLES = [".equ a = %s\n.equ b = %s\n%s" % (x, y, use)
           for x in ("b", "low(b)", "b + 1", "-b", "~b", "(b)", "1 + high(b * 2)", "b == 1", "!b")
           for y in ("a", "a + 1", "low(a)", "exp2(a)", "-a")
@@ -92,7 +115,8 @@ DEEP = [("deep-parentheses", ".dw " + "(" * 20000 + "1" + ")" * 20000), ("deep-u
 def run(res):
     vh, exe = P.base(res, PROP)
     rng = random.Random(res.seed)
-    texts = [l + "\n" for l in single_lines(res.tier)]
+    from . import gen
+    texts = [l + "\n" for l in single_lines(res.tier)] + [l + "\n" for l in device_lines(gen.read_devices(vh), res.tier)]
     # the model's list appends are quadratic: the 60 KB / 8 MB cases are kept for the thorough tier
     structural = STRUCTURAL if res.tier != "quick" else [s.replace("x" * 60000, "x" * 3000).replace("l" * 60000, "l" * 3000).replace("c" * 60000, "c" * 3000)
                                                             .replace("nop\n" * 20000, "nop\n" * 1500).replace("\n" * 50000, "\n" * 5000)
@@ -121,7 +145,9 @@ def run(res):
     res.extra["distribution"].update({"outcome:" + k: v for k, v in dist.items()})
     res.extra["exhaustive"] = False
     res.rule = ("bounded-exhaustive single-line programs: every directive (38) and mnemonic (114) and a macro call x 0, 1 and 2 operands "
-                "(thorough: 3) from a dictionary of %d valid, boundary and hostile operand texts, in comma and '=' form; %d structural "
+                "(thorough: 3) from a dictionary of %d valid, boundary and hostile operand texts, in comma and '=' form; under every device row "
+                "every mnemonic with 0 and 1 operands (2 operands for one device per distinct flag set) of register / index / value / "
+                "name kind; %d structural "
                 "programs (cyclic .equ, recursive and mutually recursive macros, unbalanced directives, address-space and allocation "
                 "extremes, 60 KB tokens, NUL/BOM/non-ASCII); the hostile-line corpus; random programs with 1-3 token/line mutations; "
                 "three deep-nesting probes.  Each case in its own worker process with a watchdog (10 s) and a 3 GB address-space limit" %
